@@ -188,6 +188,60 @@ theorem bdd_forall_all_inputs (b : Bdd α) (h : b.WF) :
   C10.bdd_forall_all b h
 end
 
+
+/-! ### consequences: ∀ below the function below ∃; duality; more variables, weaker ∃ / stronger ∀ -/
+theorem expr_sandwich (vs : List α) (hnd : vs.Nodup) (e : Expr α) (ρ : α → Bool) :
+    ((e.forallQ vs).den ρ = true → e.den ρ = true) ∧ (e.den ρ = true → (e.existsQ vs).den ρ = true) :=
+  ⟨fun h => (expr_forall vs hnd e ρ).mp h ρ (fun _ _ => rfl),
+   fun h => (expr_exists vs hnd e ρ).mpr ⟨ρ, fun _ _ => rfl, h⟩⟩
+
+theorem expr_duality (vs : List α) (hnd : vs.Nodup) (e : Expr α) (ρ : α → Bool) :
+    (e.existsQ vs).den ρ = !(((Expr.not e).forallQ vs).den ρ) := by
+  apply Bool.eq_iff_iff.mpr
+  rw [expr_exists vs hnd, Bool.not_eq_true', ← Bool.not_eq_true, expr_forall vs hnd]
+  constructor
+  · intro ⟨σ, h₁, h₂⟩ h
+    have := h σ h₁
+    simp [Expr.den, h₂] at this
+  · intro h
+    apply Classical.byContradiction
+    intro hn
+    apply h
+    intro σ hσ
+    cases hd : e.den σ
+    · simp [Expr.den, hd]
+    · exact absurd ⟨σ, hσ, hd⟩ hn
+
+theorem expr_exists_mono (vs vs' : List α) (hnd : vs.Nodup) (hnd' : vs'.Nodup) (hsub : ∀ x ∈ vs, x ∈ vs')
+    (e : Expr α) (ρ : α → Bool) (h : (e.existsQ vs).den ρ = true) : (e.existsQ vs').den ρ = true := by
+  obtain ⟨σ, h₁, h₂⟩ := (expr_exists vs hnd e ρ).mp h
+  exact (expr_exists vs' hnd' e ρ).mpr ⟨σ, fun y hy => h₁ y (fun hv => hy (hsub y hv)), h₂⟩
+
+theorem expr_forall_anti (vs vs' : List α) (hnd : vs.Nodup) (hnd' : vs'.Nodup) (hsub : ∀ x ∈ vs, x ∈ vs')
+    (e : Expr α) (ρ : α → Bool) (h : (e.forallQ vs').den ρ = true) : (e.forallQ vs).den ρ = true := by
+  rw [expr_forall vs hnd]
+  intro σ hσ
+  exact (expr_forall vs' hnd' e ρ).mp h σ (fun y hy => hσ y (fun hv => hy (hsub y hv)))
+
+section
+variable [Ord α] [Std.TransOrd α] [Std.LawfulEqOrd α]
+theorem table_sandwich (vs : List α) (hnd : vs.Nodup) (t : Table α) (ht : t.WF) (ρ : α → Bool) :
+    ((t.forallQ vs).den ρ = true → t.den ρ = true) ∧ (t.den ρ = true → (t.existsQ vs).den ρ = true) :=
+  ⟨fun h => (table_forall vs hnd t ht ρ).2.mp h ρ (fun _ _ => rfl),
+   fun h => (table_exists vs hnd t ht ρ).2.mpr ⟨ρ, fun _ _ => rfl, h⟩⟩
+
+theorem table_exists_mono (vs vs' : List α) (hnd : vs.Nodup) (hnd' : vs'.Nodup) (hsub : ∀ x ∈ vs, x ∈ vs')
+    (t : Table α) (ht : t.WF) (ρ : α → Bool) (h : (t.existsQ vs).den ρ = true) : (t.existsQ vs').den ρ = true := by
+  obtain ⟨σ, h₁, h₂⟩ := (table_exists vs hnd t ht ρ).2.mp h
+  exact (table_exists vs' hnd' t ht ρ).2.mpr ⟨σ, fun y hy => h₁ y (fun hv => hy (hsub y hv)), h₂⟩
+
+theorem table_forall_anti (vs vs' : List α) (hnd : vs.Nodup) (hnd' : vs'.Nodup) (hsub : ∀ x ∈ vs, x ∈ vs')
+    (t : Table α) (ht : t.WF) (ρ : α → Bool) (h : (t.forallQ vs').den ρ = true) : (t.forallQ vs).den ρ = true := by
+  rw [(table_forall vs hnd t ht ρ).2]
+  intro σ hσ
+  exact (table_forall vs' hnd' t ht ρ).2.mp h σ (fun y hy => hσ y (fun hv => hy (hsub y hv)))
+end
+
 /-- the pre-repair definition `F[all=0] ∘ F[all=1]`, written out, is wrong for two variables:
     `∃{0,1}. x0 xor x1` would be false -/
 theorem all0_all1_wrong :
